@@ -21,6 +21,10 @@ import (
 type c09Case struct {
 	World   kit.World `json:"world"`
 	PushEvt int       `json:"push_evt"` // the change under test
+	// TrailEvt: a later push to the same ref (0 = none), either properly approved
+	// or "approved" by a byte-identical copy of the first change's authorization
+	// filed under the later change's path (replay)
+	TrailEvt int `json:"trail_evt,omitempty"`
 	Labels  []string  `json:"labels"`
 }
 
@@ -123,7 +127,16 @@ func genC09(rt *rapid.T) c09Case {
 		}
 		return items
 	}
+	trailing := rapid.SampledFrom([]string{"none", "none", "valid", "replay"}).Draw(rt, "trailing")
+	replayItem := kit.AttItem{Kind: rapid.SampledFrom([]string{"auth", "auth01"}).Draw(rt, "replaykind"), Stmt: change, Path: change}
+	for d := 1; d < thr; d++ {
+		replayItem.Signers = append(replayItem.Signers, d)
+	}
 	before := genItems("before")
+	if trailing == "replay" {
+		// the first change is properly approved: dev0 pushes, devs 1..thr-1 authorize exactly it
+		before = []kit.AttItem{replayItem}
+	}
 	if len(before) > 0 {
 		// one approve event per item, or all at once
 		if rapid.Bool().Draw(rt, "split") {
@@ -135,12 +148,36 @@ func genC09(rt *rapid.T) c09Case {
 		}
 	}
 	signer := rapid.SampledFrom([]int{0, 0, 1, 2, 3, wgUnknownKey, -1}).Draw(rt, "pushsigner")
+	if trailing == "replay" {
+		signer = 0
+	}
 	w.Events = append(w.Events, kit.Event{Kind: "push", Ref: "refs/heads/main", Tree: tree, Signer: signer})
 	c.PushEvt = len(w.Events) - 1
 	after := genItems("after")
 	if len(after) > 0 {
 		w.Events = append(w.Events, kit.Event{Kind: "approve", Signer: -1, Items: after})
 		labels["attestation_after_entry"] = true
+	}
+	if trailing != "none" {
+		tree2 := rapid.IntRange(1, 3).Draw(rt, "tree2")
+		change2 := kit.Change{Ref: "refs/heads/main", From: c.PushEvt, To: tree2}
+		switch trailing {
+		case "valid":
+			it := kit.AttItem{Kind: "auth", Stmt: change2, Path: change2}
+			for d := 1; d < thr; d++ {
+				it.Signers = append(it.Signers, d)
+			}
+			w.Events = append(w.Events, kit.Event{Kind: "approve", Signer: -1, Items: []kit.AttItem{it}})
+			labels["later_entry_for_the_ref_properly_approved"] = true
+		case "replay":
+			it := replayItem
+			it.Path = change2 // the very same signed statement, now filed under the later change
+			w.Events = append(w.Events, kit.Event{Kind: "approve", Signer: -1, Items: []kit.AttItem{it}})
+			labels["earlier_authorization_replayed_for_later_change"] = true
+			labels["misfiled_under_this_change"] = true
+		}
+		w.Events = append(w.Events, kit.Event{Kind: "push", Ref: "refs/heads/main", Tree: tree2, Signer: 0})
+		c.TrailEvt = len(w.Events) - 1
 	}
 	w.Normalise()
 	c.Labels = sortedKeys(labels)
@@ -157,6 +194,16 @@ func runC09(t *testing.T, s *kit.Session, c c09Case) *kit.Failure {
 	m := &kit.Model{W: &w, Opts: kit.ModelOptions{}}
 	pol := 1
 	jv := m.Judge(c.PushEvt, pol)
+	if c.TrailEvt > 0 {
+		// full verification passes only if both changes are valid
+		jt := m.Judge(c.TrailEvt, pol)
+		if jv.Valid && !jt.Valid {
+			jv = jt
+			jv.Why = fmt.Sprintf("later push (event %d): %s", c.TrailEvt, jt.Why)
+		} else if jv.Valid && jt.Unspecified != "" {
+			jv.Unspecified = jt.Unspecified
+		}
+	}
 	check := func(b *kit.Built) *kit.Failure {
 		got := verifyFull(b.Store, "refs/heads/main")
 		// safety (always): acceptance implies enough principals with a credit
@@ -172,7 +219,7 @@ func runC09(t *testing.T, s *kit.Session, c c09Case) *kit.Failure {
 		// latest-only must agree with full here (single change under the latest policy)
 		rsl.VerifResetCache()
 		_, lerr := policy.NewPolicyVerifier(b.Store).VerifyRef(context.Background(), "refs/heads/main")
-		if (lerr == nil) != (got.Err == nil) {
+		if c.TrailEvt == 0 && (lerr == nil) != (got.Err == nil) {
 			return &kit.Failure{Cause: "modes-disagree", Msg: fmt.Sprintf("full verification err=%v but latest-only err=%v", got.Err, lerr)}
 		}
 		return nil
@@ -252,6 +299,6 @@ func TestC09(t *testing.T) {
 		kit.DoReplay(s, t, rf, run)
 		return
 	}
-	s.SetRule("rapid: a rule for refs/heads/main over 2-4 persons (each with an identity for a code-review app) with threshold 2-3, optionally a trusted / untrusted app; a change (main, zero or a base commit, tree T); an attestations tree written with raw trees (no setter validation) holding 0-4 items before and 0-4 after the push: authorizations (v0.2 / v0.1 predicate) and app approvals whose signed statement names exactly this change or another ref / prior state / tree, filed under the statement's own path or mis-filed under this change's path, signed by any subset of trusted and untrusted keys (app approvals by the app key or a foreign key), approvers mapping to trusted persons or strangers, dismissed approvers; the push signed by a trusted, unknown or no key. Oracle: credit model; acceptance always implies >= threshold distinct principals with matching-statement credit, and definite cases must be accepted. Non-trivial: a mismatching or mis-filed statement, a principal with two sources of credit, or an attestation recorded after the entry")
+	s.SetRule("rapid: a rule for refs/heads/main over 2-4 persons (each with an identity for a code-review app) with threshold 2-3, optionally a trusted / untrusted app; a change (main, zero or a base commit, tree T); an attestations tree written with raw trees (no setter validation) holding 0-4 items before and 0-4 after the push: authorizations (v0.2 / v0.1 predicate) and app approvals whose signed statement names exactly this change or another ref / prior state / tree, filed under the statement's own path or mis-filed under this change's path, signed by any subset of trusted and untrusted keys (app approvals by the app key or a foreign key), approvers mapping to trusted persons or strangers, dismissed approvers; the push signed by a trusted, unknown or no key; in half of the cases a later push to the same ref follows, properly approved or 'approved' by a byte-identical copy of the first change's authorization filed under the later change's path (replay). Oracle: credit model; acceptance always implies >= threshold distinct principals with matching-statement credit, and definite cases must be accepted. Non-trivial: a mismatching or mis-filed statement, a principal with two sources of credit, or an attestation recorded after the entry")
 	kit.Campaign(s, t, "approvals", "approvals", s.Budget(10_000, 300_000), genC09, run)
 }
